@@ -258,7 +258,7 @@ func (t *Type) Depth() int {
 // ---------- the catalogue of declarations ----------
 
 type Catalogue struct {
-	NInt, NStr, NBool, NF64, NU8, NC128        *Type
+	NInt, NStr, NBool, NF64, NU8, NC128, NU64  *Type
 	S0, SP, Rec, MA, SE, NSl, NMap, NArr, NPtr *Type
 	E1, E2, E3, E4, TwA, TwB                   *Type
 	ME, MP                                     *Type // named structs with user Equal/Compare methods (Go/Methods.v)
@@ -269,8 +269,8 @@ type Catalogue struct {
 	WithMagMethods bool
 	// MW: named structs WITHOUT methods whose fields have them (derived Compare refuses unnamed structs, so a
 	// method type in field position needs a named wrapper); not among the leaves, used by C13's battery
-	MW []*Type
-	All                                        []*Type
+	MW  []*Type
+	All []*Type
 }
 
 func NewCatalogue() *Catalogue {
@@ -281,6 +281,7 @@ func NewCatalogue() *Catalogue {
 	c.NF64 = Named(4, "NF64", 0, B("float64"))
 	c.NU8 = Named(5, "NU8", 0, B("uint8"))
 	c.NC128 = Named(6, "NC128", 0, B("complex128"))
+	c.NU64 = Named(7, "NU64", 0, B("uint64"))
 	c.S0 = Named(10, "S0", 0, St(B("int"), B("string")))
 	c.SP = Named(11, "SP", 0, StP([]bool{false, true, false}, P(B("int")), Sl(B("string")), M(B("string"), B("int"))))
 	rec := Named(12, "Rec", 0, nil)
@@ -330,14 +331,14 @@ func NewCatalogue() *Catalogue {
 	nils := func() *Val { return &Val{K: "nils"} }
 	c.MGP.ExtraVals = []*Val{mg("z", 1, nils()), mg("a", 5, nils()), mg("b", 1, nils()), mg("c", 5, nils()), mg("zz", -300, nils()), mg("", 300, nils())}
 	c.MW = []*Type{
-		Named(40, "WE", 0, St(c.ME, B("int"))),                              // this.F0.Compare(that.F0)
-		Named(41, "WP", 0, St(B("bool"), P(c.MP))),                          // pointer field, pointer-parameter method
-		Named(42, "WG", 0, St(c.MG, B("string"))),                           // the magnitude is passed through
-		Named(43, "WGP", 0, St(B("int8"), P(c.MGP), c.MGP)),                 // this.F1.Compare(that.F1), this.F2.Compare(&that.F2)
-		Named(44, "WEP", 0, St(P(c.ME), c.MP)),                              // pointer to a value-parameter method: field-wise helper
+		Named(40, "WE", 0, St(c.ME, B("int"))),                                // this.F0.Compare(that.F0)
+		Named(41, "WP", 0, St(B("bool"), P(c.MP))),                            // pointer field, pointer-parameter method
+		Named(42, "WG", 0, St(c.MG, B("string"))),                             // the magnitude is passed through
+		Named(43, "WGP", 0, St(B("int8"), P(c.MGP), c.MGP)),                   // this.F1.Compare(that.F1), this.F2.Compare(&that.F2)
+		Named(44, "WEP", 0, St(P(c.ME), c.MP)),                                // pointer to a value-parameter method: field-wise helper
 		Named(45, "WGG", 0, St(Sl(c.MG), M(B("string"), c.MGP), Ar(2, c.MG))), // methods below slice / map / array fields
 	}
-	c.All = []*Type{c.NInt, c.NStr, c.NBool, c.NF64, c.NU8, c.NC128, c.S0, c.SP, c.Rec, c.MA, c.SE, c.NSl, c.NMap, c.NArr, c.NPtr, c.E1, c.E2, c.E3, c.E4}
+	c.All = []*Type{c.NInt, c.NStr, c.NBool, c.NF64, c.NU8, c.NC128, c.NU64, c.S0, c.SP, c.Rec, c.MA, c.SE, c.NSl, c.NMap, c.NArr, c.NPtr, c.E1, c.E2, c.E3, c.E4}
 	return c
 }
 
@@ -356,7 +357,7 @@ func (c *Catalogue) Leaves() []*Type {
 func (c *Catalogue) leaves() []*Type {
 	return []*Type{B("bool"), B("int"), B("int8"), B("uint8"), B("int32"), B("uint64"), B("float32"), B("float64"),
 		B("complex64"), B("complex128"), B("string"),
-		c.NInt, c.NStr, c.NBool, c.NF64, c.NU8, c.S0, c.SP, c.Rec, c.MA, c.SE, c.NSl, c.NMap, c.NArr, c.NPtr, c.E1, c.E2, c.E3, c.E4}
+		c.NInt, c.NStr, c.NBool, c.NF64, c.NU8, c.NU64, c.S0, c.SP, c.Rec, c.MA, c.SE, c.NSl, c.NMap, c.NArr, c.NPtr, c.E1, c.E2, c.E3, c.E4}
 }
 
 // KeyLeaves: value (comparable, pointer-free) types usable as map keys.
@@ -372,6 +373,15 @@ func (c *Catalogue) KeyLeaves() []*Type {
 // Special: depth-2/3 shapes that take paths of their own in the generators (an array in a map value is
 // not addressable; named arrays; pointer to pointer; nested slices/maps) — part of every tier.
 func (c *Catalogue) Special() []*Type {
+	l := c.special()
+	if c.WithMethods {
+		// a type with its own Equal/Compare methods inside composites that == could compare
+		l = append(l, Ar(2, Ar(2, c.ME)), St(Ar(2, c.ME), B("int")), Ar(2, St(c.ME, B("int"))), Named(25, "HME", 0, St(B("string"), Ar(2, c.ME))))
+	}
+	return l
+}
+
+func (c *Catalogue) special() []*Type {
 	nrow := Named(20, "NRow", 0, Ar(2, Sl(B("int"))))
 	// recursion through a map: the generated function for the map type re-enters itself
 	recm := Named(21, "RecM", 0, nil)
